@@ -1,21 +1,24 @@
 //! C09 — the receiver's account of which bytes it holds is exact (Segments::{merge,is_complete,gaps}).
 //! One step from EVERY list satisfying the representation invariant with k entries (sorted, disjoint,
-//! non-adjacent, non-empty ranges, boundaries < 2^62), symbolic arguments. Histories of any length that stay
+//! non-adjacent, non-empty ranges, boundaries < 2^32 in the quick tier, < 2^62 in the thorough tier), symbolic arguments. Histories of any length that stay
 //! within k entries are covered by induction; longer lists are outside the claim.
 use cfdp_daemon::verif::Segments;
 use std::mem::forget;
 
+/// boundaries below LIM: 2^32 in the quick tier (every file the small-file-size flag can describe; the 64-bit
+/// queries at 2^62 take 4-10 min each and sit at the memory cap on a loaded machine), 2^62 in the thorough tier
+const LIM_Q: u64 = 1u64 << 32;
 const LIM: u64 = 1u64 << 62;
 
 /// every invariant list with exactly k entries
-fn any_list(k: usize) -> (Segments, [(u64, u64); 3]) {
+fn any_list(k: usize, lim: u64) -> (Segments, [(u64, u64); 3]) {
     let mut b = [(0u64, 0u64); 3];
     let mut v = Vec::with_capacity(4);
     let mut i = 0;
     while i < k {
         let lo: u64 = kani::any();
         let hi: u64 = kani::any();
-        kani::assume(lo < hi && hi < LIM);
+        kani::assume(lo < hi && hi < lim);
         if i > 0 {
             kani::assume(lo > b[i - 1].1);
         }
@@ -99,17 +102,17 @@ fn class2(b: &[(u64, u64); 3], x: u64) -> u8 {
 /// what == 0: the returned byte count; what == 1: invariant + held set (two queries instead of one big one).
 /// Covers are written so that they are trivially satisfiable where they do not apply: CBMC reports a cover in dead
 /// code as unsatisfied, which the driver treats as a vacuity alarm.
-fn merge_pre(k: usize, class: Option<u8>) -> (Segments, [(u64, u64); 3], u64, u64) {
-    let (s, b) = any_list(k);
+fn merge_pre(k: usize, class: Option<u8>, lim: u64) -> (Segments, [(u64, u64); 3], u64, u64) {
+    let (s, b) = any_list(k, lim);
     let (x, y): (u64, u64) = (kani::any(), kani::any());
-    kani::assume(x < y && y < LIM);
+    kani::assume(x < y && y < lim);
     if let Some(c) = class {
         kani::assume(class2(&b, x) == c);
     }
     (s, b, x, y)
 }
-fn merge_count(k: usize, class: Option<u8>) {
-    let (mut s, b, x, y) = merge_pre(k, class);
+fn merge_count(k: usize, class: Option<u8>, lim: u64) {
+    let (mut s, b, x, y) = merge_pre(k, class, lim);
     let n = s.merge((x, y));
     let mut want = y - x;
     let mut i = 0;
@@ -125,8 +128,8 @@ fn merge_count(k: usize, class: Option<u8>) {
     kani::cover!(k == 0 || class.is_some() || (len < k + 1 && n > 0), "coalesced");
     kani::cover!(n > 0, "new bytes counted");
 }
-fn merge_set(k: usize, class: Option<u8>) {
-    let (mut s, b, x, y) = merge_pre(k, class);
+fn merge_set(k: usize, class: Option<u8>, lim: u64) {
+    let (mut s, b, x, y) = merge_pre(k, class, lim);
     let p: u64 = kani::any();
     let before = held(&b, k, p);
     let _n = s.merge((x, y));
@@ -140,11 +143,11 @@ fn merge_set(k: usize, class: Option<u8>) {
 }
 
 macro_rules! merge_h {
-    ($name:ident, $uw:expr, $k:expr, $class:expr, $f:ident) => {
+    ($name:ident, $uw:expr, $k:expr, $class:expr, $f:ident, $lim:expr) => {
         #[kani::proof]
         #[kani::unwind($uw)]
         fn $name() {
-            $f($k, $class);
+            $f($k, $class, $lim);
         }
     };
 }
@@ -153,40 +156,45 @@ macro_rules! merge_h {
 #[kani::unwind(5)]
 fn c09_q_merge_k0() {
     if kani::any() {
-        merge_count(0, None)
+        merge_count(0, None, LIM)
     } else {
-        merge_set(0, None)
+        merge_set(0, None, LIM)
     }
 }
-//# funcs=Segments::merge,segments::merge; bound=pre-state: every invariant list with 1 entry, 64-bit boundaries < 2^62; returned byte count; stubs=none
-merge_h!(c09_q_merge_k1_count, 5, 1, None, merge_count);
+//# funcs=Segments::merge,segments::merge; bound=pre-state: every invariant list with 1 entry, boundaries < 2^32; returned byte count; stubs=none
+merge_h!(c09_q_merge_k1_count, 5, 1, None, merge_count, LIM_Q);
 //# funcs=Segments::merge,segments::merge; bound=pre-state: every invariant list with 1 entry; invariant preserved + held set (probe byte); stubs=none
-merge_h!(c09_q_merge_k1_set, 5, 1, None, merge_set);
-//# funcs=Segments::merge,segments::merge; bound=pre-state: every invariant list with 2 entries, new segment starts before the first entry; returned byte count; stubs=none
-merge_h!(c09_q_merge_k2_count_before_first, 6, 2, Some(0), merge_count);
-//# funcs=Segments::merge,segments::merge; bound=2 entries, new segment starts inside/at the end of the first entry; returned byte count; stubs=none
-merge_h!(c09_q_merge_k2_count_in_first, 6, 2, Some(1), merge_count);
-//# funcs=Segments::merge,segments::merge; bound=2 entries, new segment starts in the gap; returned byte count; stubs=none
-merge_h!(c09_q_merge_k2_count_between, 6, 2, Some(2), merge_count);
-//# funcs=Segments::merge,segments::merge; bound=2 entries, new segment starts inside/at the end of the last entry; returned byte count; stubs=none
-merge_h!(c09_q_merge_k2_count_in_last, 6, 2, Some(3), merge_count);
-//# funcs=Segments::merge,segments::merge; bound=2 entries, new segment starts after the last entry; returned byte count; stubs=none
-merge_h!(c09_q_merge_k2_count_after_last, 6, 2, Some(4), merge_count);
-//# funcs=Segments::merge,segments::merge; bound=2 entries, start before the first entry; invariant + held set; stubs=none
-merge_h!(c09_t_merge_k2_set_before_first, 6, 2, Some(0), merge_set);
-//# funcs=Segments::merge,segments::merge; bound=2 entries, start in the first entry; invariant + held set; stubs=none
-merge_h!(c09_t_merge_k2_set_in_first, 6, 2, Some(1), merge_set);
-//# funcs=Segments::merge,segments::merge; bound=2 entries, start in the gap; invariant + held set; stubs=none
-merge_h!(c09_t_merge_k2_set_between, 6, 2, Some(2), merge_set);
-//# funcs=Segments::merge,segments::merge; bound=2 entries, start in the last entry; invariant + held set; stubs=none
-merge_h!(c09_t_merge_k2_set_in_last, 6, 2, Some(3), merge_set);
-//# funcs=Segments::merge,segments::merge; bound=2 entries, start after the last entry; invariant + held set; stubs=none
-merge_h!(c09_t_merge_k2_set_after_last, 6, 2, Some(4), merge_set);
+merge_h!(c09_q_merge_k1_set, 5, 1, None, merge_set, LIM_Q);
+//# funcs=Segments::merge,segments::merge; bound=pre-state: every invariant list with 2 entries, boundaries < 2^32, new segment starts before the first entry; returned byte count; stubs=none
+merge_h!(c09_q_merge_k2_count_before_first, 6, 2, Some(0), merge_count, LIM_Q);
+//# funcs=Segments::merge,segments::merge; bound=2 entries, boundaries < 2^32, new segment starts inside/at the end of the first entry; returned byte count; stubs=none
+merge_h!(c09_q_merge_k2_count_in_first, 6, 2, Some(1), merge_count, LIM_Q);
+//# funcs=Segments::merge,segments::merge; bound=2 entries, boundaries < 2^32, new segment starts in the gap; returned byte count; stubs=none
+merge_h!(c09_q_merge_k2_count_between, 6, 2, Some(2), merge_count, LIM_Q);
+//# funcs=Segments::merge,segments::merge; bound=2 entries, boundaries < 2^32, new segment starts inside/at the end of the last entry; returned byte count; stubs=none
+merge_h!(c09_q_merge_k2_count_in_last, 6, 2, Some(3), merge_count, LIM_Q);
+//# funcs=Segments::merge,segments::merge; bound=2 entries, boundaries < 2^32, new segment starts after the last entry; returned byte count; stubs=none
+merge_h!(c09_q_merge_k2_count_after_last, 6, 2, Some(4), merge_count, LIM_Q);
+//# funcs=Segments::merge,segments::merge; bound=2 entries, boundaries < 2^32, start before the first entry; invariant + held set; stubs=none
+merge_h!(c09_t_merge_k2_set_before_first, 6, 2, Some(0), merge_set, LIM_Q);
+//# funcs=Segments::merge,segments::merge; bound=2 entries, boundaries < 2^32, start in the first entry; invariant + held set; stubs=none
+merge_h!(c09_t_merge_k2_set_in_first, 6, 2, Some(1), merge_set, LIM_Q);
+//# funcs=Segments::merge,segments::merge; bound=2 entries, boundaries < 2^32, start in the gap; invariant + held set; stubs=none
+merge_h!(c09_t_merge_k2_set_between, 6, 2, Some(2), merge_set, LIM_Q);
+//# funcs=Segments::merge,segments::merge; bound=2 entries, boundaries < 2^32, start in the last entry; invariant + held set; stubs=none
+merge_h!(c09_t_merge_k2_set_in_last, 6, 2, Some(3), merge_set, LIM_Q);
+//# funcs=Segments::merge,segments::merge; bound=2 entries, boundaries < 2^32, start after the last entry; invariant + held set; stubs=none
+merge_h!(c09_t_merge_k2_set_after_last, 6, 2, Some(4), merge_set, LIM_Q);
 //# funcs=Segments::merge,segments::merge; bound=pre-state: every invariant list with 3 entries; returned byte count (may be inconclusive: memory); stubs=none
-merge_h!(c09_t_merge_k3_count, 7, 3, None, merge_count);
+merge_h!(c09_x_merge_k3_count, 7, 3, None, merge_count, LIM);
+
+//# funcs=Segments::merge,segments::merge; bound=pre-state: every invariant list with 1 entry, 64-bit boundaries < 2^62; returned byte count (4-7 min, ~10 GB); stubs=none
+merge_h!(c09_t_merge_k1_count_wide, 5, 1, None, merge_count, LIM);
+//# funcs=Segments::merge,segments::merge; bound=2 entries, boundaries < 2^62, new segment starts inside/at the end of the first entry; returned byte count (5-10 min, ~12 GB); stubs=none
+merge_h!(c09_t_merge_k2_count_in_first_wide, 6, 2, Some(1), merge_count, LIM);
 
 fn complete_step(k: usize) {
-    let (s, b) = any_list(k);
+    let (s, b) = any_list(k, LIM);
     let n: u64 = kani::any();
     // data beyond the EOF size is a file-size fault, handled before completeness is consulted
     kani::assume(s.end_or_0() <= n);
@@ -213,10 +221,10 @@ fn c09_q_is_complete() {
 }
 
 fn gaps_step(k: usize) {
-    let (s, b) = any_list(k);
+    let (s, b) = any_list(k, LIM_Q);
     let (lo, hi): (u64, u64) = (kani::any(), kani::any());
     // callers never query an empty window (NAK scopes and delayed-NAK ranges are non-empty)
-    kani::assume(lo < hi && hi < LIM);
+    kani::assume(lo < hi && hi < LIM_Q);
     let p: u64 = kani::any();
     let in_window = lo <= p && p < hi;
     let g = s.gaps(lo, hi);
@@ -248,7 +256,7 @@ fn gaps_step(k: usize) {
     assert!(in_window || !in_gap, "no gap reaches outside the window");
     kani::cover!(n == k + 1, "max gaps");
 }
-//# funcs=Segments::gaps; bound=lists with 0 or 1 entries, any non-empty window lo<hi<2^62, probe byte symbolic; stubs=none
+//# funcs=Segments::gaps; bound=lists with 0 or 1 entries, any non-empty window lo<hi<2^32, probe byte symbolic; stubs=none
 #[kani::proof]
 #[kani::unwind(6)]
 fn c09_q_gaps_k01() {
@@ -258,7 +266,7 @@ fn c09_q_gaps_k01() {
         gaps_step(1)
     }
 }
-//# funcs=Segments::gaps; bound=lists with 2 entries, any window, probe byte symbolic; stubs=none
+//# funcs=Segments::gaps; bound=lists with 2 entries (boundaries < 2^32), any window, probe byte symbolic; stubs=none
 #[kani::proof]
 #[kani::unwind(6)]
 fn c09_q_gaps_k2() {
@@ -267,6 +275,6 @@ fn c09_q_gaps_k2() {
 //# funcs=Segments::gaps; bound=lists with 3 entries; stubs=none
 #[kani::proof]
 #[kani::unwind(7)]
-fn c09_t_gaps_k3() {
+fn c09_x_gaps_k3() {
     gaps_step(3);
 }
